@@ -417,6 +417,15 @@ def feedEv (which : Prop3) (mons : Array Mon) (a : Nat) (e : Ev) : Array Mon × 
 
 def hasSub (s sub : String) : Bool := (s.splitOn sub).length > 1
 
+/-- `target` is `x` or an ancestor of `x` in the observed supervision tree. -/
+def obsAbove (obs : List ObsActor) : Nat → Nat → Nat → Bool
+  | 0, _, _ => false
+  | fuel + 1, x, target =>
+    if x == target then true
+    else match (obs.find? (·.id == x)).bind (·.sup) with
+      | some q => obsAbove obs fuel q target
+      | none => false
+
 def regOf (reg : List (Nat × List Nat)) (a : Nat) : List Nat := ((reg.find? (·.1 == a)).map (·.2)).getD []
 
 def regSet (reg : List (Nat × List Nat)) (a : Nat) (l : List Nat) : List (Nat × List Nat) :=
@@ -572,7 +581,7 @@ def step (which : Prop3) (st : St) (opLine impl : String) : St × StepOut :=
         match prevObs.find? (·.id == a), prevObs.find? (·.id == p), obs.find? (·.id == a) with
         | some oa, some op', some na =>
           if oa.status.rank < Status.draining.rank && op'.status.rank < Status.draining.rank
-              && !op'.kidsClosed && a != p && na.sup != some p
+              && !op'.kidsClosed && !obsAbove prevObs (prevObs.length + 1) p a && na.sup != some p
           then fails ++ ["c04.link-ignored"] else fails
         | _, _, _ => fails
       | .c04, .unlink a p =>
